@@ -341,7 +341,7 @@ func (c *Ctx) ruleMultiLevelWildcardParent(id string) {
 			if !ok || !fieldOfRecv(lk.X, children) {
 				return false
 			}
-			k, ok := lk.Index.(*ssa.Const)
+			k, ok := res(lk.Index).(*ssa.Const) // through a child(key) helper the key is the helper's parameter
 			return ok && k.Value != nil && k.Value.ExactString() == `"#"`
 		})
 	}
@@ -382,14 +382,14 @@ func (c *Ctx) ruleMultiLevelWildcardParent(id string) {
 				if !ok || !fieldOfRecv(lk.X, children) {
 					continue
 				}
-				if k, ok := lk.Index.(*ssa.Const); !ok || k.Value == nil || k.Value.ExactString() != `"#"` {
+				if k, ok := res(lk.Index).(*ssa.Const); !ok || k.Value == nil || k.Value.ExactString() != `"#"` {
 					continue
 				}
 				for _, d := range decisions(p) {
 					switch x := d.Cond.(type) {
 					case *ssa.Extract:
-						if x.Tuple == ssa.Value(lk) && x.Index == 1 && !d.Val {
-							wild = true
+						if x.Index == 1 && !d.Val && (x.Tuple == ssa.Value(lk) || depReaches(x, func(v ssa.Value) bool { return v == ssa.Value(lk) })) {
+							wild = true // the ok of the look-up itself, or of a child(key) helper that returns it
 						}
 					case *ssa.BinOp:
 						if (x.Op == token.EQL && d.Val) || (x.Op == token.NEQ && !d.Val) {
